@@ -141,6 +141,10 @@ package xmpp
 //@   ensures[C08] handlerCalls <= 1
 //@   callsite (mellium.im/xmpp/jid.JID).String#1
 //@     assert[C08] arg0.locallen + arg0.domainlen == len(arg0.data)
+// only replies (type result or error) are ever handed to a waiting request;
+// get/set requests always go to the handler
+//@   callsite mellium.im/xmlstream.Inner#1
+//@     assert[C07,C06] typ == "result" || typ == "error"
 //@   callsite (xmpp.Handler).HandleXMPP#1
 //@     assert[C07] rw.id == id && !rw.wroteResp && rw.level == 0
 //@     assert[C07] iqOk == iqName(start.Name)
